@@ -54,6 +54,39 @@ def _too_large_message(fn, err_type):
     raise RuntimeError('handle_ffi_req: no FFI_ERROR answer for a result that fits no buffer (the model describes one)')
 
 
+def _ffi_error_report(b):
+    """how TRAP_EXTERN_CALL reports a failed extern call: vm_error(vm, code, <format>, ext_err).  The model treats the text the
+    co-process sent as DATA: the format must be a string literal consisting of a fixed prefix followed by a single %s whose
+    argument is the buffer the FFI layer filled.  Returns (prefix bytes, size of that buffer)."""
+    import ast
+    fn = ca.functions(b, 'src/nanovm/vm.c', ['vm_call_function'])['vm_call_function']
+    size = _array_len(fn, 'ext_err')
+    found = []
+    for c in ca.walk(fn):
+        if c.get('kind') == 'CallExpr' and ca.callee_name(c) == 'vm_error':
+            args = c['inner'][1:]
+            refs = [n.get('referencedDecl', {}).get('name') for a in args for n in ca.walk(a) if n.get('kind') == 'DeclRefExpr']
+            if 'ext_err' not in refs:
+                continue
+            if len(args) < 4:
+                raise RuntimeError('TRAP_EXTERN_CALL: vm_error is called with the FFI error text as its FORMAT argument '
+                                   '(no literal format): text chosen by the co-process would be interpreted by printf')
+            lit = [n for n in ca.walk(args[2]) if n.get('kind') == 'StringLiteral']
+            fmtrefs = [n for n in ca.walk(args[2]) if n.get('kind') == 'DeclRefExpr']
+            if not lit or fmtrefs:
+                raise RuntimeError('TRAP_EXTERN_CALL: the format of vm_error is not a string literal')
+            text = ast.literal_eval(lit[0]['value'])
+            if not text.endswith('%s') or '%' in text[:-2]:
+                raise RuntimeError('TRAP_EXTERN_CALL: unexpected format %r (the model describes <prefix>%%s)' % text)
+            a3 = [n.get('referencedDecl', {}).get('name') for n in ca.walk(args[3]) if n.get('kind') == 'DeclRefExpr']
+            if a3 != ['ext_err']:
+                raise RuntimeError('TRAP_EXTERN_CALL: the %%s argument is not ext_err')
+            found.append(text[:-2].encode('latin-1'))
+    if len(found) != 1:
+        raise RuntimeError('TRAP_EXTERN_CALL: expected exactly one vm_error report of ext_err, found %d' % len(found))
+    return found[0], size
+
+
 def _depth_limit(fd):
     lims = set()
     for fn in fd.values():
@@ -113,6 +146,7 @@ def generate(b):
         # `payload` is a pointer: the request starts in the fixed array `stack_payload` and the capacity is doubled while it is
         # below COP_MAX_PAYLOAD (loop `while (n == 0 && cap < COP_MAX_PAYLOAD)`); the largest capacity ever tried is the bound
         c = _array_len(f1, 'stack_payload')
+        kv['REQ_STACK_BUF'] = c
         if not _is_reassigned(f1, 'cap'):
             raise RuntimeError('request buffer of %s: neither a fixed array nor a growing capacity' % f1['name'])
         while c < MAXP:
@@ -125,6 +159,7 @@ def generate(b):
     kv['COP_ARGS_ARRAY'] = _array_len(f2, 'args')
     kv['COP_REPLY_STACK_BUF'] = _array_len(f2, 'stack_buf')
     kv['COP_REPLY_BIG_BUF'] = _array_len(f2, 'big_size')
+    kv['COP_REPLY_BIG_INITIAL'] = kv['COP_REPLY_BIG_BUF']
     if _is_reassigned(f2, 'big_size'):
         c = kv['COP_REPLY_BIG_BUF']
         while c * 2 <= MAXP:
@@ -143,6 +178,10 @@ def generate(b):
         v.append('(* %s *)' % n_)
     for k in kv:
         v.append('Definition %s : N := %d.' % (k, kv[k]))
+    prefix, esz = _ffi_error_report(b)
+    v.append('Definition VM_EXT_ERR_SIZE : N := %d.   (* char ext_err[..] in TRAP_EXTERN_CALL: the error text is cut to one byte less *)' % esz)
+    v.append('Definition VM_FFI_ERR_PREFIX : list N := [%s].   (* %r: literal format of the report is this prefix followed by %%s *)'
+             % ('; '.join(str(x) for x in prefix), prefix.decode('latin-1')))
     v.append('Definition COP_REPLY_TOO_LARGE_MSG : list N := [%s].   (* %r *)' % ('; '.join(str(x) for x in msg), msg.decode('latin-1')))
     v.append('')
     return write_if_changed(os.path.join(GEN_DIR, 'CopConst.v'), '\n'.join(v))
